@@ -1266,6 +1266,9 @@ func (c *Compiler) writeNodeLC(node_ *node, v, fn string, depth int) error {
 
 	switch node_.typ {
 	case typeStruct:
+		if depth > 0 {
+			c.wl("if len(path) < ", strconv.Itoa(depth+1), " { return nil }")
+		}
 		for _, ch := range node_.chld {
 			if (ch.typ == typeBasic && ch.typu != "string") || !ch.hasc {
 				continue
